@@ -27,7 +27,8 @@ import (
 // handle (and the commit closures bound to it) cannot be cloned, so every successor is built by
 // replaying the shortest history that reaches its parent on a fresh file and then applying ONE
 // more real operation; the file is observed (copied and opened read-only with bbolt itself)
-// right before and right after that operation. The reference model below is written from the
+// right after that operation and compared with the parent's observation (a replay of a single
+// counterexample observes it before the operation as well). The reference model below is written from the
 // property text only; it never calls into the wal package.
 //
 // Part "conc": two loggers (Log; optional Commit) and one Recover, serialised by an explicit
@@ -383,8 +384,9 @@ type c16Result struct {
 }
 
 // c16Run replays a history on a fresh file through the real Hydro and observes the file
-// around the last operation.
-func c16Run(hist []c16Op, tag string) (res c16Result) {
+// after the last operation (and right before it when before is set; the search passes the
+// parent's own observation instead, which is the same file contents by determinism of the replay).
+func c16Run(hist []c16Op, tag string, before bool) (res c16Result) {
 	path := filepath.Join(c16Dir(), "c16-"+tag+".wal")
 	os.Remove(path)
 	defer os.Remove(path)
@@ -405,7 +407,7 @@ func c16Run(hist []c16Op, tag string) (res c16Result) {
 	commits := map[int]wal.Commit{}
 	for i, op := range hist {
 		last := i == len(hist)-1
-		if last {
+		if last && before {
 			if res.Before, err = c16ReadFile(path); err != nil {
 				res.Fatal = "observe before: " + err.Error()
 				return
@@ -687,7 +689,7 @@ type c16Node struct {
 
 func c16Check(c *vcore.Ctx) {
 	defer c16Cleanup()
-	c.SetRule("seq: breadth-first search over histories of Log(type A|B, item x|y), Commit(any handle invoked fewer than twice, also stale ones), Reopen(handlers AB | A only), Recover(script giving every pending event of a registered type an outcome in {ok, handler error, not needed, check error, decode error}) on the real Hydro+Lithium; each transition = replay of the shortest history on a fresh bbolt file + one real operation, file observed before and after; de-duplicated per worker on (file contents as (id,type,item,serial), highest id issued, handles (serial, stale, invocations), registered handlers); " +
+	c.SetRule("seq: breadth-first search over histories of Log(type A|B, item x|y), Commit(any handle invoked fewer than twice, also stale ones), Reopen(handlers AB | A only), Recover(script giving every pending event of a registered type an outcome in {ok, handler error, not needed, check error, decode error}) on the real Hydro+Lithium; each transition = replay of the shortest history on a fresh bbolt file + one real operation, file contents observed after it and compared with the parent's observed contents; de-duplicated per worker on (file contents as (id,type,item,serial), highest id issued, handles (serial, stale, invocations), registered handlers); " +
 		"conc: all interleavings at kv.KV granularity of 2 loggers (Log; Commit or not) and 1 Recover with handler outcomes {ok, handler error}^2; " +
 		"non-trivial = a reached state whose log holds an event or that has an outstanding handle (distinct by canonical state), resp. an interleaving in which the recovery scan saw an event (distinct by configuration and schedule)")
 	c.Assume("the log file is observed by copying it and opening the copy with bbolt read-only; bbolt itself is trusted to show committed transactions")
@@ -715,7 +717,7 @@ func c16Check(c *vcore.Ctx) {
 	}
 	depth := 4
 	if c.Thorough() {
-		depth = 5
+		depth = 6
 	}
 	c.Bound("seq_depth", depth)
 	c.Bound("seq_recover_scripts", "all 5^k outcome vectors for k<=2 pending events of a registered type; for k>=3 every vector with at most 2 events deviating from ok")
@@ -732,7 +734,10 @@ func c16Check(c *vcore.Ctx) {
 // transition could not be evaluated or violated the property).
 func c16Transition(c *vcore.Ctx, m *c16Model, hist []c16Op, tag string, report bool) *c16Model {
 	op := hist[len(hist)-1]
-	r := c16Run(hist, fmt.Sprintf("%s-%d", tag, c.Shard))
+	r := c16Run(hist, fmt.Sprintf("%s-%d", tag, c.Shard), tag == "replay")
+	if tag != "replay" {
+		r.Before = m.Pending
+	}
 	if report {
 		c.Eval()
 		c.Exec()
